@@ -1,5 +1,6 @@
 import OnlVerif.Lemmas.TcpLiveDecr
 import OnlVerif.Lemmas.TcpLiveQuiet
+import Mathlib.Logic.Relation
 /-!
 # Fair runs of the closed loop terminate, and only in the complete state (C16)
 
@@ -261,5 +262,115 @@ theorem can_complete (h : LInv n l) :
       · unfold Loop.run
         simp only [hs]
         exact h2
+
+/-! ## runs with a loss budget -/
+
+theorem bstep_LInv {x y : Nat × Loop ℚ} (hb : Loop.BStep x y) (h : LInv n x.2) : LInv n y.2 := by
+  cases hb with
+  | fair hf => obtain ⟨a, _, hs⟩ := hf; exact LInv_step h hs
+  | dropData i hs => exact LInv_step h hs
+  | dropAck i hs => exact LInv_step h hs
+
+theorem breach_LInv {x y : Nat × Loop ℚ} (hr : Relation.ReflTransGen Loop.BStep x y) (h : LInv n x.2) : LInv n y.2 := by
+  induction hr with
+  | refl => exact h
+  | tail _ hb ih => exact bstep_LInv hb ih
+
+/-- a budgeted fair run is a run of the closed loop -/
+theorem breach_lreach {x y : Nat × Loop ℚ} (hr : Relation.ReflTransGen Loop.BStep x y) : LReach x.2 y.2 := by
+  induction hr with
+  | refl => exact .init
+  | tail _ hb ih =>
+    cases hb with
+    | fair hf => obtain ⟨a, _, hs⟩ := hf; exact .step ih hs
+    | dropData i hs => exact .step ih hs
+    | dropAck i hs => exact .step ih hs
+
+/-- a run that cannot continue has reached a quiescent state -/
+theorem stuck_quiescent {k : Nat} (h : LInv n l) (hstuck : ∀ y, ¬ Loop.BStep (k, l) y) : l.Quiescent := by
+  by_contra hq
+  obtain ⟨a, l', hf, hs⟩ := fair_progress h hq
+  exact hstuck (k, l') (.fair ⟨a, hf, hs⟩)
+
+/-- and conversely a quiescent state allows no further step, whatever the budget -/
+theorem quiescent_stuck {k : Nat} (hq : l.Quiescent) : ∀ y, ¬ Loop.BStep (k, l) y := by
+  intro y hb
+  generalize hx : (k, l) = x at hb
+  cases hb with
+  | fair hf =>
+    injection hx with e1 e2; subst e1 e2
+    obtain ⟨a, hfa, hs⟩ := hf
+    cases hfa with
+    | tick t hd ha hlt hex =>
+      obtain ⟨kv, hkv, hl, _⟩ := hex
+      have := hq.2.2.1 kv hkv
+      rw [hl] at this
+      cases this
+    | wake fuel => rw [quiescent_no_event hq _ (fun t e => by cases e)] at hs; cases hs
+    | handoff => rw [quiescent_no_event hq _ (fun t e => by cases e)] at hs; cases hs
+    | fire q => rw [quiescent_no_event hq _ (fun t e => by cases e)] at hs; cases hs
+    | deliver => rw [quiescent_no_event hq _ (fun t e => by cases e)] at hs; cases hs
+    | ackArrive => rw [quiescent_no_event hq _ (fun t e => by cases e)] at hs; cases hs
+  | dropData i hs =>
+    injection hx with e1 e2; subst e2
+    rw [quiescent_no_event hq _ (fun t e => by cases e)] at hs; cases hs
+  | dropAck i hs =>
+    injection hx with e1 e2; subst e2
+    rw [quiescent_no_event hq _ (fun t e => by cases e)] at hs; cases hs
+
+/-- the Boolean test is sound -/
+theorem fairB_sound {a : LAct ℚ} (h : Loop.fairB l a = true) : Loop.Fair l a := by
+  cases a with
+  | own act =>
+    cases act with
+    | wake f => exact .wake f
+    | handoff => exact .handoff
+    | fire q => exact .fire q
+    | ack x => simp [Loop.fairB] at h
+    | tick t =>
+      simp only [Loop.fairB, Bool.and_eq_true, List.isEmpty_iff, decide_eq_true_eq, List.any_eq_true] at h
+      obtain ⟨⟨⟨h1, h2⟩, h3⟩, kv, hkv, h4, h5⟩ := h
+      exact .tick t h1 h2 h3 ⟨kv, hkv, h4, h5⟩
+  | deliver => exact .deliver
+  | ackArrive => exact .ackArrive
+  | dropData i => simp [Loop.fairB] at h
+  | dropAck i => simp [Loop.fairB] at h
+
+theorem runB_sound : ∀ (acts : List (LAct ℚ)) (k : Nat) (l : Loop ℚ) (y : Nat × Loop ℚ),
+    Loop.runB k l acts = some y → Relation.ReflTransGen Loop.BStep (k, l) y := by
+  intro acts
+  induction acts with
+  | nil =>
+    intro k l y h
+    simp only [Loop.runB] at h
+    injection h with h
+    subst h
+    exact .refl
+  | cons a rest ih =>
+    intro k l y h
+    unfold Loop.runB at h
+    cases hs : l.step a with
+    | none => rw [hs] at h; cases h
+    | some l' =>
+      rw [hs] at h
+      simp only at h
+      by_cases hf : Loop.fairB l a = true
+      · rw [if_pos hf] at h
+        exact Relation.ReflTransGen.head (.fair ⟨a, fairB_sound hf, hs⟩) (ih _ _ _ h)
+      · rw [if_neg hf] at h
+        by_cases hdr : Loop.isDrop a = true
+        · rw [if_pos hdr] at h
+          cases k with
+          | zero => cases h
+          | succ k =>
+            simp only at h
+            cases a with
+            | dropData i => exact Relation.ReflTransGen.head (.dropData i hs) (ih _ _ _ h)
+            | dropAck i => exact Relation.ReflTransGen.head (.dropAck i hs) (ih _ _ _ h)
+            | own act => simp [Loop.isDrop] at hdr
+            | deliver => simp [Loop.isDrop] at hdr
+            | ackArrive => simp [Loop.isDrop] at hdr
+        · rw [if_neg hdr] at h
+          cases h
 
 end TcpLive
